@@ -346,6 +346,34 @@ pub fn main(args: &[String]) -> i32 {
                     _ => return fail(what("harness: validity_after on an account credential"), J::Null, J::Null),
                 },
                 "context_after" => {}
+                "revealed_marker" | "revealed_marker_forged" => {
+                    use concordium_base::web3id::v1::AtomicProofV1;
+                    let forged = crypto == "revealed_marker_forged";
+                    let other = Web3IdAttribute::String(AttributeKind::try_new("forgedvalue".into()).unwrap());
+                    match first {
+                        CredentialV1::Account(c) => {
+                            c.proof.proof_value.statement_proofs[0] = AtomicProofV1::AttributeValueAlreadyRevealed;
+                            if let (true, AtomicStatementV1::AttributeValue(st)) = (forged, &mut c.subject.statements[0]) {
+                                st.attribute_value = other;
+                            }
+                        }
+                        CredentialV1::Identity(c) => {
+                            c.proof.proof_value.statement_proofs[0] = AtomicProofV1::AttributeValueAlreadyRevealed;
+                            if let (true, AtomicStatementV1::AttributeValue(st)) = (forged, &mut c.subject.statements[0]) {
+                                st.attribute_value = other;
+                            }
+                        }
+                    }
+                }
+                "extra_sharing_coeff" => match first {
+                    CredentialV1::Identity(c) => c
+                        .proof
+                        .proof_value
+                        .identity_attributes_proofs
+                        .cmm_id_cred_sec_sharing_coeff
+                        .push(concordium_base::pedersen_commitment::Commitment(<G as Curve>::zero_point())),
+                    _ => return fail(what("harness: extra_sharing_coeff on an account credential"), J::Null, J::Null),
+                },
                 "material_other" => {
                     materials[0] = if kind == "account" {
                         let mut c = commitments.clone();
